@@ -200,3 +200,34 @@ contract(
 contract(M + "resolve_expressions", params={"components": "Seq[Component]", "symbols": "Dict[Name,Sym]"}, ret="Seq[Component]",
          raises={"GotranxError": "maybe"}, assumed=True,
          note="ASSUMED interface only (may raise MissingSymbolError etc.): what it returns is checked again by ODE.__init__")
+
+# the constructor as seen from a call site (its clauses are the proved postconditions of ODE.__init__ above)
+contract(M + "ODE", params={"components": "Seq[Component]", "t": "Opt[Sym]", "name": "Name", "comments": "Opt[Comments]"}, ret="ODE", ghost={"i": "Int"},
+         raises={"ComponentNotCompleteError": "maybe", "DuplicateSymbolError": "maybe"}, assumed=True,
+         ensures={"keeps_the_components": "result.components == components",
+                  "every_component_is_complete": "implies(0 <= i and i < len(components), components[i].states_with_derivatives == components[i].states)"},
+         note="call-site view of the constructor; both clauses are proved for ODE.__init__ (contract gotranx.ode.ODE.__init__)")
+
+defspec("without_component", {"CS": "Seq[Component]", "other": "Component", "j": "Int"}, "Seq[Component]", """
+def without_component(CS, other, j):
+    if j <= 0:
+        return empty("Seq[Component]")
+    if CS[j - 1] != other:
+        return without_component(CS, other, j - 1) + [CS[j - 1]]
+    return without_component(CS, other, j - 1)
+""")
+contract(
+    M + "ODE.__sub__", params={"self": "ODE", "other": "Component"}, ret="ODE",
+    raises={"ComponentNotCompleteError": "maybe", "DuplicateSymbolError": "maybe"},
+    ensures={"the_other_components_in_their_order": "result.components == without_component(self.components, other, len(self.components))"},
+    comps={0: "without_component(self.components, other, j)"},
+    properties=("C13",),
+    note="model - C keeps exactly the components different from C; together with C.to_ode() (components == (C,)) the two parts are complementary",
+)
+
+contract(
+    BC + "to_ode", params={"self": "Component"}, ret="ODE",
+    raises={"ComponentNotCompleteError": "maybe", "DuplicateSymbolError": "maybe"},
+    ensures={"a_model_of_this_component_alone": "len(result.components) == 1 and result.components[0] == self"},
+    properties=("C13",),
+)
